@@ -8,7 +8,7 @@
  \
   Impl impl; SyncConnectOp wop, oop; SyncReceiveBuffer wbuf, obuf, fresh; iora_engine eng; Impl *self = &impl; \
   SessionId W = nondet_u64(), sid = nondet_u64(); uint64_t GOID = nondet_u64(); iora_errinfo reason; reason.code = nondet_int(); \
-  G_impl = self; impl.engine = &eng; G_fresh = &fresh; G_made = 0; IORA_TRUE = 1; \
+  G_impl = self; impl.engine = &eng; G_fresh = &fresh; G_made = 0; IORA_TRUE = 1; G_closing_sid = sid; \
   impl.syncMutex.held = 0; impl.callbackMutex.held = 0; impl.observerMutex.held = 0; impl.userDataMutex.held = 0;      \
   impl.pendingConnects.guard = &impl.syncMutex; impl.readModes.guard = &impl.syncMutex; impl.receiveBuffers.guard = &impl.syncMutex; \
   impl.observers.guard = &impl.observerMutex; impl.observerToSession.guard = &impl.observerMutex; impl.sessionData.guard = &impl.userDataMutex; \
@@ -93,6 +93,8 @@ void h_tombgc(void)
     __CPROVER_assert(impl.readModes.present == impl0.readModes.present && impl.readModes.wval == impl0.readModes.wval && SAME_BUF(wbuf, w0), "F3d read mode and buffer contents of every other session untouched");
     __CPROVER_assert(impl.receiveBuffers.present == impl0.receiveBuffers.present || (!impl.receiveBuffers.present && w0.closed && !w0.hasData && w0.waiters == 0 && !w0.flushing),
                      "GC1 the tombstone GC erases another session's entry only if it is closed, drained, with no parked waiter and no flush in progress");
+    __CPROVER_assert(!(impl0.receiveBuffers.present && (w0.hasData || w0.data.hi > w0.data.lo)) || (impl.receiveBuffers.present && impl.receiveBuffers.wval == &wbuf && wbuf.data.lo == w0.data.lo && wbuf.data.hi == w0.data.hi),
+                     "GC2 (C03) an entry with UNDRAINED bytes survives every close of another session, bytes intact: a late receiveSync still gets every byte that arrived before the close, then PeerClosed");
     if (impl.receiveBuffers.present != impl0.receiveBuffers.present) { IORA_CANARY("h_tombgc: stale tombstone collected"); }
     return;
   }
@@ -135,6 +137,8 @@ void h_onclose(void)
     __CPROVER_assert(impl.readModes.present == impl0.readModes.present && impl.readModes.wval == impl0.readModes.wval && SAME_BUF(wbuf, w0), "F3d read mode and buffer contents of every other session untouched");
     __CPROVER_assert(impl.receiveBuffers.present == impl0.receiveBuffers.present || (!impl.receiveBuffers.present && w0.closed && !w0.hasData && w0.waiters == 0 && !w0.flushing),
                      "GC1 the tombstone GC erases another session's entry only if it is closed, drained, with no parked waiter and no flush in progress");
+    __CPROVER_assert(!(impl0.receiveBuffers.present && (w0.hasData || w0.data.hi > w0.data.lo)) || (impl.receiveBuffers.present && impl.receiveBuffers.wval == &wbuf && wbuf.data.lo == w0.data.lo && wbuf.data.hi == w0.data.hi),
+                     "GC2 (C03) an entry with UNDRAINED bytes survives every close of another session, bytes intact: a late receiveSync still gets every byte that arrived before the close, then PeerClosed");
     return;
   }
   if (impl0.pendingConnects.present)
